@@ -48,6 +48,7 @@ class Recorder(object):
                 self.sim.fault("injected_exception")
                 self.sim.event("inject", *key)
                 self.sim.injected_at = (self.sim.step, self.sim.now)
+                self.sim.vtime_cap = self.sim.now + 610.0
                 self.sim.stop_faults()
             raise InjectedError("injected failure while processing item %r" % (key,))
         for _ in range(self.nyield):
